@@ -314,3 +314,45 @@ def swapped_arguments(prog, mi):
                     if other is None or not (isinstance(other, ast.Name) and other.id == a.id):
                         out.append((call, call.func.id, a.id, p))
     return out
+
+
+_NO_COPY = ('asarray', 'ascontiguousarray', 'asanyarray', 'asfortranarray', 'atleast_1d', 'atleast_2d', 'atleast_3d', 'require', 'ravel',
+            'reshape', 'squeeze', 'transpose')
+
+
+def may_be_callers_array(fn, v, depth=0):
+    """the parameter whose array object the expression `v` may be (not a copy of it): the parameter itself, a view of it, or one of numpy's
+    as-array conversions, which return their argument when it already has the requested type and layout; None when `v` is a new array"""
+    params = {a.arg for a in fn.args.posonlyargs + fn.args.args + fn.args.kwonlyargs} - {'self'}
+    if isinstance(v, ast.Name):
+        if v.id in params:
+            rebound = [st for st in ast.walk(fn) if isinstance(st, ast.Assign) and any(isinstance(t, ast.Name) and t.id == v.id for t in st.targets)]
+            if not rebound:
+                return v.id
+            return next((r for r in (may_be_callers_array(fn, st.value, depth + 1) for st in rebound) if r), None) if depth < 4 else None
+        defs = [st for st in ast.walk(fn) if isinstance(st, ast.Assign) and any(isinstance(t, ast.Name) and t.id == v.id for t in st.targets)]
+        if depth < 4:
+            for st in defs:
+                r = may_be_callers_array(fn, st.value, depth + 1)
+                if r:
+                    return r
+        return None
+    if isinstance(v, ast.IfExp):
+        return may_be_callers_array(fn, v.body, depth) or may_be_callers_array(fn, v.orelse, depth)
+    if isinstance(v, ast.Attribute) and v.attr in ('T', 'base', 'real'):
+        return may_be_callers_array(fn, v.value, depth)
+    if isinstance(v, ast.Subscript) and (isinstance(v.slice, ast.Slice) or (isinstance(v.slice, ast.Tuple) and any(isinstance(e, ast.Slice) for e in v.slice.elts))):
+        return may_be_callers_array(fn, v.value, depth)            # basic slicing: a view
+    if isinstance(v, ast.Call):
+        f = dotted(v.func) or ''
+        last = f.rsplit('.', 1)[-1]
+        kw = {k.arg: k.value for k in v.keywords}
+        if last in _NO_COPY and f.split('.')[0] in ('np', 'numpy') and v.args:
+            return may_be_callers_array(fn, v.args[0], depth)
+        if last == 'array' and f.split('.')[0] in ('np', 'numpy') and v.args and isinstance(kw.get('copy'), ast.Constant) and kw['copy'].value in (False, None):
+            return may_be_callers_array(fn, v.args[0], depth)
+        if isinstance(v.func, ast.Attribute) and last in ('view', 'reshape', 'ravel', 'squeeze', 'transpose', 'swapaxes'):
+            return may_be_callers_array(fn, v.func.value, depth)
+        if isinstance(v.func, ast.Attribute) and last == 'astype' and isinstance(kw.get('copy'), ast.Constant) and kw['copy'].value is False:
+            return may_be_callers_array(fn, v.func.value, depth)
+    return None
